@@ -38,6 +38,7 @@ type Report struct {
 var table = map[string]map[string]string{
 	"os": {
 		"Getenv": "simrt.Getenv", "LookupEnv": "simrt.LookupEnv", "Environ": "simrt.Environ", "ExpandEnv": "simrt.ExpandEnv",
+		"Setenv": "simrt.Setenv", "Unsetenv": "simrt.Unsetenv", "Clearenv": "simrt.Clearenv",
 		"Exit": "simrt.Exit", "Stdout": "simrt.Stdout", "Stderr": "simrt.Stderr", "Args": "simrt.Args()",
 		"Open": "simrt.Open", "Create": "simrt.Create", "OpenFile": "simrt.OpenFile", "Stat": "simrt.Stat", "Lstat": "simrt.Stat",
 		"Rename": "simrt.Rename", "Remove": "simrt.Remove", "ReadFile": "simrt.ReadFile", "WriteFile": "simrt.WriteFile",
